@@ -102,6 +102,18 @@ func (m *c39Model) Apply(s Step) bool {
 		}
 		m.BM = nil
 		return true
+	case "merge-in":
+		// another document's EmbeddedFiles tree is merged into this one: its names are inserted, those
+		// that are present already stay as they are (same bytes under the same name here)
+		if len(a.List) == 0 {
+			return false
+		}
+		m.Dup = nil
+		for _, n := range a.List {
+			h := sha256.Sum256(attContent(n))
+			m.Att[n] = hex.EncodeToString(h[:])
+		}
+		return true
 	case "att-add":
 		if len(a.List) == 0 {
 			return false
@@ -378,6 +390,28 @@ func (c39Store) Gen(rng *rand.Rand, mm Model, aux string) Step {
 			b, _ := json.Marshal(struct{ BM []bmEntry }{bb})
 			return Step{Op: "bm-set", Args: b, NoFault: true}
 		}
+		if rng.IntN(12) == 0 {
+			// merge: names of another producer's tree, some of them present here (every position: maxima
+			// and minima of subtrees included), some new
+			var l []string
+			seen := map[string]bool{}
+			for i := 0; i < 1+rng.IntN(6); i++ {
+				var k string
+				if len(present) > 0 && rng.IntN(2) == 0 {
+					k = present[rng.IntN(len(present))]
+				} else if len(free) > 0 {
+					k = free[rng.IntN(len(free))]
+				}
+				if k != "" && !seen[k] && !strings.Contains(k, "\x01") {
+					seen[k] = true
+					l = append(l, k)
+				}
+			}
+			if len(l) > 0 {
+				sort.Strings(l)
+				return step("merge-in", c35Args{List: l, Val: fmt.Sprintf("%dx%d", 1+rng.IntN(3), 1+rng.IntN(3))})
+			}
+		}
 		switch r := rng.IntN(10); {
 		case r == 0 && len(present) > 0 && rng.IntN(2) == 0:
 			// duplicate key: the largest, the smallest or any present name is inserted again
@@ -464,6 +498,16 @@ func (c39Store) Exec(s Step, path, aux string) error {
 		return api.AddBookmarksFile(path, "", bms, true, dsConf())
 	case "bm-remove":
 		return api.RemoveBookmarksFile(path, "", dsConf())
+	case "merge-in":
+		l, n := 2, 2
+		fmt.Sscanf(a.Val, "%dx%d", &l, &n)
+		src := filepath.Join(aux, "merge-src.pdf")
+		if err := os.WriteFile(src, genTreeDocKeys(a.List, l, n), 0644); err != nil {
+			return fmt.Errorf("harness: %w", err)
+		}
+		conf := dsConf()
+		conf.CreateBookmarks = false
+		return api.MergeAppendFile([]string{src}, path, false, conf)
 	case "att-add":
 		var files []string
 		for _, n := range a.List {
